@@ -258,12 +258,17 @@ def Indexed.shiftGeneric (s : Indexed) (len : Nat) : Option Sem × Indexed :=
 structure JsArr where
   st : Indexed := .denseI32 []
   len : Nat := 0
+  lenWritable : Bool := true     -- [[Writable]] of `length` (Object.defineProperty(a, 'length', {writable: false}) clears it)
 
-/-- `a[k] = v` (SetPropertyByValue): the VM's dense fast path, else [[Set]] → array [[DefineOwnProperty]] (insert; `length` grows) -/
+/-- `a[k] = v` (SetPropertyByValue, sloppy code): the VM's dense fast path, else [[Set]] → array [[DefineOwnProperty]]:
+    an index at or beyond `length` needs a writable `length` (otherwise the assignment is rejected, silently in sloppy code) -/
 def jsSet (a : JsArr) (k : Nat) (v : Val) : JsArr :=
   match a.st.setDense k v with
   | some s' => { a with st := s' }
-  | none => { st := (a.st.insert k (plain v)).1, len := max a.len (k + 1) }
+  | none =>
+    if k < a.len then { a with st := (a.st.insert k (plain v)).1 }
+    else if a.lenWritable then { a with st := (a.st.insert k (plain v)).1, len := k + 1 }
+    else a
 
 /-- `a[k]` (GetPropertyByValue): the VM's dense fast path, else the generic [[Get]] -/
 def jsGet (a : JsArr) (k : Nat) : Option Sem :=
@@ -271,12 +276,18 @@ def jsGet (a : JsArr) (k : Nat) : Option Sem :=
   | some v => some v.sem
   | none => (a.st.get k).map (fun d => d.value.sem)
 
-/-- `a.shift()`: the dense fast path when it applies, else the generic algorithm; then `length = len - 1` -/
-def jsShift (a : JsArr) : Option Sem × JsArr :=
-  if a.len == 0 then (none, a)
+/-- `a.push(v)`: Set(O, len, v, true) then Set(O, "length", len + 1, true); with a read-only `length` the first Set throws -/
+def jsPush (a : JsArr) (v : Val) : Bool × JsArr :=
+  if a.lenWritable then (false, { a with st := (a.st.insert a.len (plain v)).1, len := a.len + 1 }) else (true, a)
+
+/-- `a.shift()`: (returned value, threw TypeError, array afterwards). The elements move first (dense fast path when it
+    applies, else the generic algorithm); the final Set(O, "length", len - 1, true) throws when `length` is read-only -/
+def jsShift (a : JsArr) : Option Sem × Bool × JsArr :=
+  if a.len == 0 then (none, !a.lenWritable, a)
   else match a.st.shiftDense a.len with
-    | some (v, s') => (some v.sem, { st := s', len := a.len - 1 })
-    | none => ((a.st.shiftGeneric a.len).1, { st := (a.st.shiftGeneric a.len).2, len := a.len - 1 })
+    | some (v, s') => (some v.sem, !a.lenWritable, { a with st := s', len := if a.lenWritable then a.len - 1 else a.len })
+    | none => ((a.st.shiftGeneric a.len).1, !a.lenWritable,
+               { a with st := (a.st.shiftGeneric a.len).2, len := if a.lenWritable then a.len - 1 else a.len })
 
 /-- index keys as the storage iterates them (hash-map order for the sparse variants) -/
 def Indexed.keys (s : Indexed) : List Nat := s.allDescs.map (·.1)
